@@ -272,6 +272,30 @@ def run_case(ctx, case):
         ctx.case('input_type', sig)
         if not close(np.asarray(g2), got, 1e-12, 1e-13):
             ctx.fail('input_type', sig, f'ndarray vs RDMs inputs differ by {maxdiff(g2, got)}', wit())
+    # one RDM given as a plain 1-d vector, in either or both positions
+    for form in ('1d_second', '1d_both'):
+        x1 = v1[0].copy() if form == '1d_both' else v1[:1].copy()
+        ok, g5 = ctx.guarded('input_type', sig, compare, x1, v2[0].copy(), method=m, data=wit, **kw)
+        if ok:
+            ctx.case('input_type', dict(sig, one_d=form))
+            if not close(np.asarray(g5).ravel(), got[:1, :1].ravel(), 1e-12, 1e-13):
+                ctx.fail('input_type', dict(sig, what=form), f'{form}: compare of the first RDMs given as 1-d vectors is '
+                         f'{np.asarray(g5).tolist()}, the stack entry is {got[0, 0]!r}', wit())
+                return
+    # the two stacks stored differently: whole-number dissimilarities of the first stack in an integer array (int64, int8
+    # when they fit) against the float64 second stack -- and the other way round
+    if np.all(v1 == np.round(v1)) and np.all(np.abs(v1) < 2 ** 40):
+        idt = np.int8 if np.all(np.abs(v1) < 120) and rng.integers(2) else np.int64
+        for first, second, tr in ((v1.astype(idt), v2.copy(), False), (v2.copy(), v1.astype(idt), True)):
+            ok, g6 = ctx.guarded('input_type', sig, compare, first, second, method=m, data=wit, **kw)
+            if ok:
+                ctx.case('input_type', dict(sig, mixed_storage=str(np.dtype(idt))))
+                g6 = np.asarray(g6).T if tr else np.asarray(g6)
+                if not close(g6, got, max(rt, 1e-12), max(at, 1e-13)):
+                    ctx.fail('input_type', dict(sig, what='mixed_storage'), f'an integer-stored ({np.dtype(idt)}) stack '
+                             f'against a float64 stack ({"second" if tr else "first"} argument integer) differs from the '
+                             f'all-float64 result by {maxdiff(g6, got)}', wit())
+                    return
     # 1-d ndarray input = one RDM
     if v1.shape[0] == 1:
         ok, g3 = ctx.guarded('input_type', sig, compare, v1[0].copy(), b, method=m, data=wit, **kw)
